@@ -162,6 +162,37 @@ func (s *DialerSet) filterHit(dialer *dialer.Dialer, filters []*config_parser.Fu
 	return true, nil
 }
 
+// validateFilter reports unsupported input types, unsupported keys and bad
+// regular expressions of one filter line independently of any dialer.
+func validateFilter(filters []*config_parser.Function) error {
+	for _, filter := range filters {
+		switch filter.Name {
+		case FilterInput_Name, FilterInput_SubscriptionTag:
+		default:
+			return fmt.Errorf(`unsupported filter input type: "%v"`, filter.Name)
+		}
+		for _, param := range filter.Params {
+			switch {
+			case param.Key == "":
+			case param.Key == FilterKey_Name_Keyword && filter.Name == FilterInput_Name:
+			case param.Key == FilterKey_Name_Regex && filter.Name == FilterInput_Name,
+				param.Key == FilterInput_SubscriptionTag_Regex && filter.Name == FilterInput_SubscriptionTag:
+				if _, ok := regexpCache.Load(param.Val); ok {
+					continue
+				}
+				regex, err := regexp2.Compile(param.Val, 0)
+				if err != nil {
+					return fmt.Errorf("bad regexp in filter %v: %w", filter.String(false, true, true), err)
+				}
+				regexpCache.Store(param.Val, regex)
+			default:
+				return fmt.Errorf(`unsupported filter key "%v" in "filter: %v()"`, param.Key, filter.Name)
+			}
+		}
+	}
+	return nil
+}
+
 func (s *DialerSet) FilterAndAnnotate(filters [][]*config_parser.Function, annotations [][]*config_parser.Param) (dialers []*dialer.Dialer, filterAnnotations []*dialer.Annotation, err error) {
 	if len(filters) != len(annotations) {
 		return nil, nil, fmt.Errorf("[CODE BUG]: unmatched annotations length: %v filters and %v annotations", len(filters), len(annotations))
@@ -172,6 +203,18 @@ func (s *DialerSet) FilterAndAnnotate(filters [][]*config_parser.Function, annot
 			anno[i] = &dialer.Annotation{}
 		}
 		return s.dialers, anno, nil
+	}
+	// Validate every filter line and annotation up front. filterHit stops at the
+	// first matching alternative and annotations are only parsed for lines that
+	// hit, so without this an invalid definition would be accepted or rejected
+	// depending on the current content of the node pool.
+	for j, f := range filters {
+		if err := validateFilter(f); err != nil {
+			return nil, nil, err
+		}
+		if _, err := dialer.NewAnnotation(annotations[j]); err != nil {
+			return nil, nil, fmt.Errorf("apply filter annotation: %w", err)
+		}
 	}
 nextDialerLoop:
 	for _, d := range s.dialers {
